@@ -88,7 +88,7 @@ func (c10) New() interface{} { return &C10Script{} }
 func (c10) Info() core.Info {
 	return core.Info{
 		Runs: map[string]int{"quick": 200000, "thorough": 15000000},
-		Rule: "Each run is a discrete-event simulation on a 90 kHz clock: an encoder emits splice_info_sections (time_signal / splice_null, 1-3 segmentation descriptors, built with the real creation API) from either a generated 'broadcast day' (nested program/chapter/break/ad/placement-opportunity segments, breakaway/resumption, early termination, overlap, unscheduled events with stream-switch ids, network signals, optionally crossing the 2^33 PTS wrap) or an adversarial alphabet (14 types x 3 event ids x 4 times); a scripted channel drops, duplicates (immediately, with the same object, or beyond the 10-entry duplicate ring) and reorders deliveries; in half of the runs each section travels as scripted transport packets through the real accumulator and decoder; every accepted descriptor with a duration arms a timer that calls Close at pts+duration+jitter (early, late, twice, after it was closed); explicit and unknown Closes are interleaved. An invariant monitor using only public results is evaluated after every call. A 'deep' workload holds 5..257 descriptors open under a breakaway; explicit closes also use near-copies of delivered descriptors (signal time + 2^k, event-id bit, segment number, type); stream-switch pairs also carry first UPIDs other than 'BLACKOUT:<id>'; the allocation of every ProcessDescriptor call is measured (a call that allocates >64 MiB is on its way to taking the process down). Plus a complete sweep of all call histories of length <=4 over a 9-letter alphabet. Non-trivial = at least one reach probe fired.",
+		Rule: "Each run is a discrete-event simulation on a 90 kHz clock: an encoder emits splice_info_sections (time_signal / splice_null, 1-3 segmentation descriptors, built with the real creation API) from either a generated 'broadcast day' (nested program/chapter/break/ad/placement-opportunity segments, breakaway/resumption, early termination, overlap, unscheduled events with stream-switch ids, network signals, optionally crossing the 2^33 PTS wrap) or an adversarial alphabet (14 types x 3 event ids x 4 times); a scripted channel drops, duplicates (immediately, with the same object, or beyond the 10-entry duplicate ring) and reorders deliveries; in half of the runs each section travels as scripted transport packets through the real accumulator and decoder; every accepted descriptor with a duration arms a timer that calls Close at pts+duration+jitter (early, late, twice, after it was closed); explicit and unknown Closes are interleaved. An invariant monitor using only public results is evaluated after every call. A 'deep' workload holds 5..257 descriptors open under a breakaway; explicit closes also use near-copies of delivered descriptors (signal time + 2^k, event-id bit, segment number, type); stream-switch pairs also carry first UPIDs other than 'BLACKOUT:<id>'; the allocation of every ProcessDescriptor call is measured (a call that allocates >64 MiB is on its way to taking the process down). Plus a complete sweep of all call histories of length <=4 over a 9-letter alphabet. Non-trivial = at least one reach probe fired. Added in wave 20: near-copies with the same pts_time under another pts_adjustment (adj:K) or the same signal time split differently (split:K); runs in which only some signals are re-stamped.",
 		Real: []string{"scte35.NewState", "state.ProcessDescriptor/Close/Open", "segmentationDescriptor getters (the closing rules and equality themselves are the harness's transcription, ref/closing.go)", "scte35 creation API + UpdateData", "scte35.NewSCTE35", "scte35.SCTE35AccumulatorDoneFunc", "packet.Accumulator"},
 		Stub: []string{"encoder workload", "packetiser", "signal channel (drop/dup/late dup/reorder)", "simulated clock + event heap + duration timers", "caller issuing explicit closes"},
 		Assumptions: []string{
